@@ -292,6 +292,8 @@ func init() {
 		r.importing = "C07"
 		checkSelectorGrammar(r, ga, "c07")
 		checkSpellingBlind(r, prog, a, "c07")
+		r.importing = "C18"
+		checkEvaluatorPipeline(r, prog, a, "c18") // what Evaluate runs with is what CreateEvaluator was given (an unknown value of nil is an unknown value)
 		r.importing = "C15"
 		checkEngineInvariants(r, prog, "c15") // every expression of the language is an expression: the engine reads the table as written, any character included
 		r.importing = ""
